@@ -273,16 +273,8 @@ class RefusedScenario(PairScenario):
                 if me.items[k][2][:1] == (0,):
                     me.fail(k, UserErrorA("attempt0"))
                     break
-            # (this runs inside an actor: it must not count itself when waiting for the retry thread to park)
-            cur = threading.current_thread()
-            was = getattr(cur, "external", None)
-            if was is not None:
-                cur.external = True
-            try:
-                instr.settle()
-            finally:
-                if was is not None:
-                    cur.external = was
+            # (this runs inside an actor, which settle() would count as running: wait for the retry thread's back-off instead)
+            instr.wait_for(lambda: instr.timed_waiter("Retry") or instr.quiescent_but_me())
             fire_next_timer("Retry")
 
     def victim_role(self, ctx):
